@@ -17,7 +17,7 @@ import (
 func NamedSpec(stream string, off map[string]bool, from, to uint64) Spec {
 	base := func(i uint64, rng *core.Rand) idlm.SemOpts {
 		return idlm.SemOpts{MaxFiles: 4, MaxDefs: 6, Services: true, Constants: true, Defaults: true, Dirs: rng.Chance(2, 3), ForGen: true,
-			GoAnns: rng.Chance(2, 3), Redact: rng.Chance(1, 2), PkgNameClash: rng.Chance(1, 3), ServiceBias: rng.Chance(1, 3), ChainMode: rng.Chance(1, 6), ManyTypes: rng.Chance(1, 5), Off: off}
+			GoAnns: rng.Chance(2, 3), Redact: rng.Chance(1, 2), PkgNameClash: rng.Chance(1, 3), ServiceBias: rng.Chance(1, 3), ChainMode: rng.Chance(1, 6), ManyTypes: rng.Chance(1, 5), TypedefZoo: rng.Chance(1, 4), Off: off}
 	}
 	cli := func(i uint64, rng *core.Rand) CLIOpts {
 		o := CLIOpts{NoZap: rng.Chance(1, 3), StrictEnumText: rng.Chance(1, 3), PerModule: rng.Chance(1, 4), InferRoot: rng.Chance(1, 4)}
